@@ -417,8 +417,14 @@ def genItemCase (cfg : GCfg) (fam : String) (seed idx : Nat) : Case := runGen se
   let isEnum ← if cfg.allowEnum && cfg.allowStruct then chance 1 2 else pure cfg.allowEnum
   -- trait list
   let nTraits ← pickW [(4, 1), (3, 2), (2, 3), (1, 4), (1, 5)]
+  let enumOk (t : String) : Bool := match Kind.fromStr t with
+    | some (.cmp _) | some .copy | some .clone | some .debug | some .dflt => true
+    | some _ => false
+    | none => true
+  let keepAll ← chance 1 12
+  let pool := if isEnum && !keepAll && (cfg.traits.filter enumOk).length > 0 then cfg.traits.filter enumOk else cfg.traits
   let traits ← (do
-    let ts ← listOf nTraits (pick cfg.traits)
+    let ts ← listOf nTraits (pick pool)
     pure ts.eraseDups)
   let (generics, ctx) ← genGenerics cfg
   let typeLevelOwn ← (do
@@ -556,5 +562,165 @@ def cfgDump : GCfg := { cfgAll with dumpPct := 35 }
 def cfgStrip : GCfg := { traits := allTraits, cmpAttrPct := 45, debugAttrPct := 40, defaultAttrPct := 40, boundPct := 20,
                          foreignPct := 75, validBias := false }
 def cfgWild : GCfg := { cfgAll with validBias := false, trickyPct := 15, traits := allTraits ++ ["Foo", "Assign", "Index", "clone"] }
+
+/-! ## Renaming identifiers throughout an item (raw-identifier parameter names) -/
+
+mutual
+def Ty.mapIdent (f : String → String) : Ty → Ty
+  | .path g segs => .path g (Seg.mapIdentL f segs)
+  | .qpath s tg tsegs rest => .qpath (Ty.mapIdent f s) tg (Seg.mapIdentL f tsegs) (Seg.mapIdentL f rest)
+  | .ref lt m t => .ref lt m (Ty.mapIdent f t)
+  | .ptr m t => .ptr m (Ty.mapIdent f t)
+  | .slice t => .slice (Ty.mapIdent f t)
+  | .array t len => .array (Ty.mapIdent f t) (match len with | .ident s => .ident (f s) | l => l)
+  | .tuple ts => .tuple (Ty.mapIdentL f ts)
+  | .bareFn args ret => .bareFn (Ty.mapIdentL f args) (Ty.mapIdentO f ret)
+  | .paren t => .paren (Ty.mapIdent f t)
+  | .never => .never
+  | .dynT g segs => .dynT g (Seg.mapIdentL f segs)
+  | .macro toks => .macro toks
+def Ty.mapIdentO (f : String → String) : Option Ty → Option Ty
+  | none => none
+  | some t => some (Ty.mapIdent f t)
+def Ty.mapIdentL (f : String → String) : List Ty → List Ty
+  | [] => []
+  | t :: ts => Ty.mapIdent f t :: Ty.mapIdentL f ts
+def Seg.mapIdent (f : String → String) : Seg → Seg
+  | .mk i args => .mk (f i) (GArg.mapIdentL f args)
+def Seg.mapIdentL (f : String → String) : List Seg → List Seg
+  | [] => []
+  | s :: ss => Seg.mapIdent f s :: Seg.mapIdentL f ss
+def GArg.mapIdent (f : String → String) : GArg → GArg
+  | .ty t => .ty (Ty.mapIdent f t)
+  | .lt s => .lt s
+  | .lit s => .lit s
+  | .assoc n t => .assoc n (Ty.mapIdent f t)
+def GArg.mapIdentL (f : String → String) : List GArg → List GArg
+  | [] => []
+  | a :: as => GArg.mapIdent f a :: GArg.mapIdentL f as
+end
+
+def TBound.mapIdent (f : String → String) : TBound → TBound
+  | .trait q lts p => .trait q lts (Ty.mapIdent f p)
+  | .lt s => .lt s
+def WPred.mapIdent (f : String → String) : WPred → WPred
+  | .ty lts t bs => .ty lts (Ty.mapIdent f t) (bs.map (TBound.mapIdent f))
+  | .lt a bs => .lt a bs
+def GParam.mapIdent (f : String → String) : GParam → GParam
+  | .lt n bs => .lt n bs
+  | .ty n bs d => .ty (f n) (bs.map (TBound.mapIdent f)) (d.map (Ty.mapIdent f))
+  | .const_ n t d => .const_ (f n) (Ty.mapIdent f t) d
+def Generics.mapIdent (f : String → String) (g : Generics) : Generics :=
+  { params := g.params.map (GParam.mapIdent f), wheres := g.wheres.map (WPred.mapIdent f) }
+def BoundArg.mapIdent (f : String → String) : BoundArg → BoundArg
+  | .ty t => .ty (Ty.mapIdent f t)
+  | .pred p => .pred (WPred.mapIdent f p)
+  | .dots => .dots
+def mapBound (f : String → String) (b : Option (List BoundArg)) : Option (List BoundArg) := b.map (·.map (BoundArg.mapIdent f))
+def Args.mapIdent (f : String → String) (a : Args) : Args :=
+  { a with bound := mapBound f a.bound,
+           items := a.items.map fun it => { it with args := it.args.map fun (b, d) => (mapBound f b, d) } }
+def Attr.mapIdent (f : String → String) : Attr → Attr
+  | .foreign ts => .foreign ts
+  | .deriveEx a => .deriveEx (a.mapIdent f)
+  | .cmp w (.list a) => .cmp w (.list { a with bound := mapBound f a.bound })
+  | .debug (.list a) => .debug (.list { a with bound := mapBound f a.bound })
+  | .dflt (.list a) => .dflt (.list { a with bound := mapBound f a.bound })
+  | x => x
+def Fields.mapIdent (f : String → String) (fs : Fields) : Fields :=
+  { fs with fields := fs.fields.map fun fl => { fl with attrs := fl.attrs.map (Attr.mapIdent f), ty := Ty.mapIdent f fl.ty } }
+def Variant.mapIdent (f : String → String) (v : Variant) : Variant :=
+  { v with attrs := v.attrs.map (Attr.mapIdent f), fields := v.fields.mapIdent f }
+def Item.mapIdent (f : String → String) : Item → Item
+  | .struct_ s =>
+    .struct_ { s with attrs := s.attrs.map (Attr.mapIdent f), generics := s.generics.mapIdent f, fields := s.fields.mapIdent f }
+  | .enum_ en =>
+    .enum_ { en with attrs := en.attrs.map (Attr.mapIdent f), generics := en.generics.mapIdent f,
+                     variants := en.variants.map (Variant.mapIdent f) }
+  | x => x
+
+/-- some cases spell a generic parameter as a raw identifier, at the declaration, at the uses, or both -/
+def rawParamVariant (mode : Nat) (c : Case) : Case :=
+  let f : String → String := fun s =>
+    match mode with
+    | 0 => if s == "T" then "r#type" else s                 -- a keyword as parameter name
+    | 1 => if s == "N" then "r#N" else if s == "T" then "r#T" else s   -- raw spelling everywhere
+    | _ => s
+  let entry := match c.entry with
+    | .attr a => EntryPoint.attr (a.mapIdent f)
+    | .derive => .derive
+  { c with entry, item := c.item.mapIdent f, tags := s!"rawparam={mode}" :: c.tags }
+
+/-- `genItemCase`, with one case in 25 spelling its parameters as raw identifiers -/
+def genItemCaseR (cfg : GCfg) (fam : String) (seed idx : Nat) : Case :=
+  let c := genItemCase cfg fam seed idx
+  if idx % 25 == 7 then rawParamVariant 0 c else if idx % 25 == 19 then rawParamVariant 1 c else c
+
+/-! ## Metamorphic groups (relations between *real* expansions; no model needed to judge them) -/
+
+def Item.attrs : Item → List Attr
+  | .struct_ s => s.attrs
+  | .enum_ e => e.attrs
+  | .impl_ i => i.attrs
+  | .other _ => []
+
+def Item.withAttrs (attrs : List Attr) : Item → Item
+  | .struct_ s => .struct_ { s with attrs }
+  | .enum_ e => .enum_ { e with attrs }
+  | .impl_ i => .impl_ { i with attrs }
+  | .other ts => .other ts
+
+/-- every attribute of the item, on the type, its variants and their fields -/
+def Item.allAttrs : Item → List Attr
+  | .struct_ s => s.attrs ++ s.fields.fields.flatMap (·.attrs)
+  | .enum_ e => e.attrs ++ e.variants.flatMap fun v => v.attrs ++ v.fields.fields.flatMap (·.attrs)
+  | _ => []
+
+def kindsOfArgs (a : Args) : Kinds :=
+  (Kinds.new true).extend (a.items.filterMap fun it => (Kind.fromStr it.trait_).map fun k => { kind := k })
+
+/-- C15: the same item requested through the attribute macro, through `#[derive(Ex)]`, with the list split
+over two attributes, and — where no helper attribute on the item belongs only to the other traits — one trait alone -/
+def meta15Cases (seed idx : Nat) : List Case :=
+  let base := genItemCase { cfgAll with mixEntries := false, boundPct := 30 } "meta15" seed idx
+  match base.entry with
+  | .derive => []
+  | .attr a =>
+    let id := s!"meta15/{seed}/{idx}"
+    let attrs := base.item.attrs
+    let cAttr : Case := { base with id := id ++ "/attr" }
+    let cDerive : Case := { base with id := id ++ "/derive", entry := .derive, item := base.item.withAttrs (.deriveEx a :: attrs) }
+    let n := a.items.length
+    let k := if n ≥ 2 then 1 + (seed + idx) % (n - 1) else 0
+    let cSplit : List Case :=
+      if n ≥ 2 then
+        [{ base with id := id ++ s!"/split{k}", entry := .attr { a with items := a.items.take k },
+                     item := base.item.withAttrs (.deriveEx { a with items := a.items.drop k } :: attrs) }]
+      else []
+    let kAll := kindsOfArgs a
+    let solos : List Case := (a.items.zipIdx).filterMap fun (it, j) =>
+      let aj : Args := { a with items := [it] }
+      let kj := kindsOfArgs aj
+      if n ≥ 2 && base.item.allAttrs.all (fun at_ => kAll.isMatch at_ == kj.isMatch at_) then
+        some { base with id := id ++ s!"/solo{j}", entry := .attr aj }
+      else none
+    cAttr :: cDerive :: cSplit ++ solos
+
+def Args.noDump (a : Args) : Args :=
+  { a with dump := false, items := a.items.map fun it => { it with args := it.args.map fun (b, _) => (b, false) } }
+
+def Attr.noDump : Attr → Attr
+  | .deriveEx a => .deriveEx a.noDump
+  | x => x
+
+/-- C19: the same request with and without its `dump` flags -/
+def metaDumpCases (seed idx : Nat) : List Case :=
+  let base := genItemCase cfgDump "metaDump" seed idx
+  let id := s!"metaDump/{seed}/{idx}"
+  let plainItem := base.item.withAttrs (base.item.attrs.map Attr.noDump)
+  let plainEntry := match base.entry with
+    | .attr a => EntryPoint.attr a.noDump
+    | .derive => .derive
+  [{ base with id := id ++ "/dump" }, { base with id := id ++ "/plain", entry := plainEntry, item := plainItem }]
 
 end DX
